@@ -55,6 +55,10 @@ class StatementSplitter:
         if unified == 'BEGIN':
             self._begin_depth += 1
             if self._is_create:
+                if self._in_declare:
+                    # DECLARE already opened this block
+                    self._in_declare = False
+                    return 0
                 # FIXME(andi): This makes no sense.  ## this comment neither
                 return 1
             return 0
